@@ -362,9 +362,8 @@ pub fn analyze(case: &Case) -> Analysis {
         None => {}
         Some(Carrier::Header) => {
             let v = canonical_header_value(&auth_headers[0].0);
-            if auth_headers[0].0.iter().any(|c| *c != b' ' && is_http_ws(*c)) {
-                unspec!(R_ALGORITHM, "Authorization header contains whitespace other than spaces");
-            }
+            // Optional white space around the header value and around each parameter is SP or HTAB (RFC 9110 OWS) and is
+            // trimmed; the algorithm token, however, ends at the first SPACE (rule 6a): a tab does not end it.
             let v = trim_ws(&v).to_vec();
             let (alg, rest) = split_first(&v, b' ');
             if alg != b"AWS4-HMAC-SHA256" {
